@@ -36,7 +36,10 @@ MACROS = {
     'string': r'{string1}|{string2}',
     # from CSS2.1
     'invalid': r'{invalid1}|{invalid2}',
-    'url':  r'[\x09\x21\x23-\x26\x28\x2a-\x7E]|{nonascii}|{escape}',
+    # (a backslash is only part of an {escape}: with \x5c in the class as well
+    # every escape could be read in two ways and a failing match took
+    # exponential time)
+    'url':  r'[\x09\x21\x23-\x26\x28\x2a-\x5b\x5d-\x7E]|{nonascii}|{escape}',
 
     's': r'\t|\r|\n|\f|\x20',
     'w': r'{s}*',
